@@ -99,25 +99,31 @@ Proof.
   set (h := {| h_timestamp := ts; h_protocol := p; h_len := len payload mod 65536 |}).
   assert (Hwf : header_wf h).
   { unfold header_wf, h, u16, len. cbn. repeat split; try apply Hts; try apply Hp; lia. }
-  unfold read_segment.
-  assert (Hlen : (length ((header_encode h ++ payload) ++ rest) <? 8)%nat = false).
-  { rewrite !app_length, header_encode_length. apply Nat.ltb_ge. lia. }
-  rewrite Hlen. rewrite <- app_assoc.
+  unfold read_segment. rewrite <- app_assoc.
   rewrite (firstn_app_exact (header_encode h)) by reflexivity.
   rewrite (skipn_app_exact (header_encode h)) by reflexivity.
+  rewrite header_encode_length. replace (8 <? 8)%nat with false by reflexivity.
   rewrite (header_roundtrip_proof h Hwf).
   assert (Hn : Z.to_nat (h_len h) = length payload).
   { unfold h, len. cbn. rewrite Z.mod_small by lia. lia. }
   rewrite Hn.
-  replace (length (payload ++ rest) <? length payload)%nat with false
-    by (symmetry; apply Nat.ltb_ge; rewrite app_length; lia).
   rewrite (firstn_app_exact payload) by reflexivity.
   rewrite (skipn_app_exact payload) by reflexivity.
+  rewrite Nat.ltb_irrefl.
   reflexivity.
 Qed.
 
 Lemma frame_cons s : exists b t, frame s = b :: t.
 Proof. destruct s as [[ts p] payload]. unfold frame, header_encode, be32. cbn. eauto. Qed.
+
+Lemma read_segments_S f bs : bs <> [] ->
+  read_segments (S f) bs =
+  match read_segment bs with
+  | Ok (p, payload, rest) => let '(segs, fin) := read_segments f rest in ((p, payload) :: segs, fin)
+  | Err e => ([], Err e)
+  | Panic p => ([], Panic p)
+  end.
+Proof. destruct bs; [congruence|reflexivity]. Qed.
 
 Lemma read_segments_mux : forall w fuel,
   Forall segment_wf w -> (length (mux_bytes w) <= fuel)%nat ->
@@ -132,7 +138,7 @@ Proof.
     { destruct s as [[ts p] payload]. unfold frame. rewrite app_length, header_encode_length. lia. }
     destruct fuel as [|f].
     { rewrite app_length in Hfuel. lia. }
-    rewrite Hf at 1. cbn [app read_segments]. rewrite <- Hf.
+    rewrite read_segments_S by (rewrite Hf; discriminate).
     rewrite (read_segment_frame s (mux_bytes w) Hs).
     rewrite (IH f Hw); [reflexivity|].
     rewrite app_length in Hfuel. lia.
@@ -182,3 +188,47 @@ Fixpoint sequential (ids : list Z) (sent : Z -> list (list Z)) : list (Z * list 
   | [] => []
   | id :: r => map (fun x => (id, x)) (sent id) ++ sequential r sent
   end.
+
+Lemma sequential_ext ids f g : (forall i, In i ids -> f i = g i) -> sequential ids f = sequential ids g.
+Proof.
+  induction ids as [|id r IH]; intros H; [reflexivity|].
+  cbn. rewrite (H id) by now left. rewrite IH; auto. intros i Hi. apply H. now right.
+Qed.
+
+Lemma sequential_interleaving : forall ids sent,
+  NoDup ids -> (forall id, ~ In id ids -> sent id = []) -> Interleaving sent (sequential ids sent).
+Proof.
+  induction ids as [|id r IH]; intros sent Hnd Hsup.
+  - apply il_done. intros id. apply Hsup. auto.
+  - inversion Hnd as [|? ? Hnotin Hnd']; subst.
+    cbn [sequential].
+    remember (sent id) as l eqn:El. revert sent El Hsup.
+    induction l as [|x rest IHl]; intros sent El Hsup.
+    + cbn. apply IH; auto. intros i Hi. destruct (Z.eq_dec i id) as [->|Hne]; [now symmetry|].
+      apply Hsup. intros [H|H]; [congruence|contradiction].
+    + cbn [map app]. apply il_step with (rest := rest); [now symmetry|].
+      rewrite (sequential_ext r sent (upd sent id rest)).
+      * apply IHl.
+        -- unfold upd. now rewrite Z.eqb_refl.
+        -- intros i Hi. unfold upd. destruct (i =? id) eqn:E; [|now apply Hsup].
+           exfalso. apply Hi. left. lia.
+      * intros i Hi. unfold upd. destruct (i =? id) eqn:E; [|reflexivity].
+        assert (i = id) by lia. subst i. contradiction.
+Qed.
+
+Lemma no_cross_delivery_proof sent wire r p r' p' :
+  Forall segment_wf wire -> Interleaving sent (map untimed wire) ->
+  0 <= p < 32768 -> 0 <= p' < 32768 -> (r, p) <> (r', p') ->
+  recv_id r p <> recv_id r' p' /\
+  received r p wire = sent (recv_id r p) /\ received r' p' wire = sent (recv_id r' p').
+Proof.
+  intros Hwf Hil Hp Hp' Hne. split.
+  - intros H. apply recv_id_inj in H; auto. destruct H; subst. congruence.
+  - rewrite !(received_fifo sent wire Hwf Hil), <- !recv_id_peer. auto.
+Qed.
+
+Lemma demux_only_subscribed subs w id q :
+  In (id, q) (demux subs w) -> In id subs /\ q = delivered_to id w.
+Proof.
+  unfold demux. intros H. apply in_map_iff in H as [i [Hi Hin]]. inversion Hi; subst. auto.
+Qed.
